@@ -123,6 +123,187 @@ theorem cinv_setMode (l : L) (m : Mode) (h : CInv l) : CInv { l with mode := m }
 theorem cinv_setOpenBrackets (l : L) (v : Int) (h : CInv l) : CInv { l with openBrackets := v } := h
 theorem cinv_setEndOffset (l : L) (v : Nat) (h : CInv l) : CInv { l with endOffset := v } := h
 
+/-! ### bounds: the loops of the port stay inside the input and raise no model error -/
+
+def OkErr (l : L) : Prop := l.err = none ∨ l.err = some .tokenLimit
+
+/-- state between primitives: nothing read ahead; `m` is a lower bound of `endOffset` -/
+structure A (n m : Nat) (l : L) : Prop where
+  size : l.input.size = n
+  lo : m ≤ l.endOffset
+  hi : l.endOffset ≤ n
+  se : l.startOffset ≤ l.endOffset
+  ok : OkErr l
+
+/-- state right after a `next()` from an `A` state -/
+structure B (n m : Nat) (l : L) : Prop where
+  size : l.input.size = n
+  cb : l.canBackup = true
+  lo : m ≤ l.prevEndOffset
+  phi : l.prevEndOffset ≤ n
+  sp : l.startOffset ≤ l.prevEndOffset
+  lt : l.prevEndOffset < l.endOffset
+  hi : l.endOffset ≤ n + 1
+  ok : OkErr l
+  ne : l.current ≠ EOF → l.endOffset ≤ n
+
+theorem decodeRune_width (inp : Bytes) (off : Nat) (h : off < inp.size) :
+    1 ≤ (decodeRune inp off).2 ∧ off + (decodeRune inp off).2 ≤ inp.size := by
+  unfold decodeRune
+  rw [if_pos h]
+  simp only []
+  generalize hsz : (if byteAt inp off < 0xE0 then 2 else if byteAt inp off < 0xF0 then 3 else 4) = sz
+  have hsz' : sz = 2 ∨ sz = 3 ∨ sz = 4 := by
+    subst hsz; split
+    · simp
+    · split <;> simp
+  repeat' split
+  all_goals first | omega | (simp only []; omega) | (simp only [] at *; omega)
+
+theorem next_B {n m : Nat} {l : L} (h : A n m l) : B n m (next l).1 ∧ (next l).2 = (next l).1.current := by
+  refine ⟨?_, rfl⟩
+  obtain ⟨hs, hlo, hhi, hse, hok⟩ := h
+  by_cases hlt : l.endOffset < l.input.size
+  · have hw := decodeRune_width l.input l.endOffset hlt
+    refine ⟨hs, rfl, hlo, hhi, hse, ?_, ?_, hok, ?_⟩
+    · simp only [next, hlt, if_true]; omega
+    · simp only [next, hlt, if_true]; omega
+    · intro _; simp only [next, hlt, if_true]; omega
+  · refine ⟨hs, rfl, hlo, hhi, hse, ?_, ?_, hok, ?_⟩
+    · simp only [next, hlt, if_false]; omega
+    · simp only [next, hlt, if_false]; omega
+    · intro hne; exfalso; apply hne; simp only [next, hlt, if_false]
+
+theorem B_A {n m : Nat} {l : L} (h : B n m l) (hne : l.current ≠ EOF) : A n (m + 1) l :=
+  ⟨h.size, by have := h.lo; have := h.lt; omega, h.ne hne, by have := h.sp; have := h.lt; omega, h.ok⟩
+
+theorem backup_A {n m : Nat} {l : L} (h : B n m l) : A n m (backupOne l) := by
+  unfold backupOne
+  simp only [h.cb, Bool.not_true, Bool.false_eq_true, if_false]
+  exact ⟨h.size, h.lo, h.phi, h.sp, h.ok⟩
+
+theorem A_mono {n m m' : Nat} {l : L} (h : A n m l) (hm : m' ≤ m) : A n m' l :=
+  ⟨h.size, by have := h.lo; omega, h.hi, h.se, h.ok⟩
+
+theorem acceptWhileN_A {n m : Nat} (f : Rune → Bool) (hf : f EOF = false) (fuel : Nat) (l : L)
+    (h : A n m l) (hfuel : n + 1 - l.endOffset ≤ fuel) : A n m (acceptWhileN fuel f l) := by
+  induction fuel generalizing l m with
+  | zero => have := h.hi; omega
+  | succ k ih =>
+    simp only [acceptWhileN]
+    obtain ⟨hb, hr⟩ := next_B h
+    split
+    · rename_i hfr
+      have hne : (next l).1.current ≠ EOF := by
+        intro he; rw [hr, he, hf] at hfr; exact absurd hfr (by decide)
+      have ha := B_A hb hne
+      have := hb.lt
+      have hp : (next l).1.prevEndOffset = l.endOffset := rfl
+      exact A_mono (ih _ ha (by omega)) (by omega)
+    · exact backup_A hb
+
+theorem acceptWhile_A {n m : Nat} (f : Rune → Bool) (hf : f EOF = false) (l : L) (h : A n m l) :
+    A n m (acceptWhile f l) := by
+  unfold acceptWhile
+  exact acceptWhileN_A f hf _ l h (by have := h.size; omega)
+
+theorem scanStringN_A {n m : Nat} (fuel : Nat) (l : L)
+    (h : A n m l) (hfuel : n + 1 - l.endOffset ≤ fuel) : A n m (scanStringN fuel l) := by
+  induction fuel generalizing l m with
+  | zero => have := h.hi; omega
+  | succ k ih =>
+    simp only [scanStringN]
+    obtain ⟨hb, hr⟩ := next_B h
+    have hp : (next l).1.prevEndOffset = l.endOffset := rfl
+    have hlt := hb.lt
+    split
+    · rename_i h34
+      exact A_mono (B_A hb (by rw [← hr, h34]; decide)) (by omega)
+    · split
+      · exact backup_A hb
+      · rename_i hnq hnl
+        have hne : (next l).1.current ≠ EOF := by
+          rw [← hr]; intro he; exact hnl (Or.inr he)
+        have ha := B_A hb hne
+        split
+        · obtain ⟨hb2, hr2⟩ := next_B ha
+          have hp2 : (next (next l).1).1.prevEndOffset = (next l).1.endOffset := rfl
+          split
+          · -- string template: rewind to the backslash
+            refine ⟨hb2.size, ?_, ?_, ?_, hb2.ok⟩
+            · show m ≤ (next l).1.prevEndOffset; rw [hp]; exact h.lo
+            · show (next l).1.prevEndOffset ≤ n; rw [hp]; exact h.hi
+            · show (next (next l).1).1.startOffset ≤ (next l).1.prevEndOffset; rw [hp]; exact h.se
+          · split
+            · exact A_mono (backup_A hb2) (by omega)
+            · rename_i _ hnl2
+              have hne2 : (next (next l).1).1.current ≠ EOF := by
+                rw [← hr2]; intro he; exact hnl2 (Or.inr he)
+              have ha2 := B_A hb2 hne2
+              have := hb2.lt
+              exact A_mono (ih _ ha2 (by omega)) (by omega)
+        · exact A_mono (ih _ ha (by omega)) (by omega)
+
+theorem endPosWalk_isSome (fuel : Nat) (inp : Bytes) (e off : Nat) (p : Pos) (he : e ≤ inp.size + 1) :
+    ∃ q, endPosWalk fuel inp e off p = some q := by
+  induction fuel generalizing off p with
+  | zero => exact ⟨p, rfl⟩
+  | succ k ih =>
+    simp only [endPosWalk]
+    split
+    · split
+      · omega
+      · exact ih _ _
+    · exact ⟨p, rfl⟩
+
+theorem okErr_fail_limit (l : L) (h : OkErr l) : OkErr (l.fail .tokenLimit) := by
+  unfold L.fail; split
+  · exact h
+  · exact Or.inr rfl
+
+theorem emit_A {n m : Nat} (ty : Nat) (nl : Bool) (rs : Int × Pos) (consume : Bool) (l : L)
+    (h : A n m l) (h1 : 1 ≤ l.endOffset) : A n m (emit ty nl rs consume l) := by
+  unfold emit
+  split
+  · exact h
+  · split
+    · exact ⟨by rw [← h.size]; exact congrArg (fun k => Array.size k.2.2.2.2.1) (frame_fail l _).1,
+        by rw [show (l.fail LexErr.tokenLimit).endOffset = l.endOffset by unfold L.fail; split <;> rfl]; exact h.lo,
+        by rw [show (l.fail LexErr.tokenLimit).endOffset = l.endOffset by unfold L.fail; split <;> rfl]; exact h.hi,
+        by rw [show (l.fail LexErr.tokenLimit).endOffset = l.endOffset by unfold L.fail; split <;> rfl,
+               show (l.fail LexErr.tokenLimit).startOffset = l.startOffset by unfold L.fail; split <;> rfl]; exact h.se,
+        okErr_fail_limit l h.ok⟩
+    · obtain ⟨q, hq⟩ := endPosWalk_isSome (l.endOffset - l.startOffset) l.input l.endOffset l.startOffset l.startPos
+        (by have := h.hi; have := h.size; omega)
+      have hq' : endPos l = some q := hq
+      rw [hq']
+      simp only []
+      cases consume with
+      | false => exact ⟨h.size, h.lo, h.hi, h.se, h.ok⟩
+      | true =>
+        simp only [if_true]
+        split
+        · rename_i hbad; have := h.hi; have := h.size; omega
+        · exact ⟨h.size, h.lo, h.hi, Nat.le_refl _, h.ok⟩
+
+theorem emitType_A {n m : Nat} (ty : Nat) (l : L) (h : A n m l) (h1 : 1 ≤ l.endOffset) : A n m (emitType ty l) :=
+  emit_A _ _ _ _ _ h h1
+
+theorem emitError_A {n m : Nat} (l : L) (h : A n m l) (h1 : 1 ≤ l.endOffset) : A n m (emitError l) := by
+  unfold emitError
+  obtain ⟨q, hq⟩ := endPosWalk_isSome (l.endOffset - l.startOffset) l.input l.endOffset l.startOffset l.startPos
+    (by have := h.hi; have := h.size; omega)
+  have hq' : endPos l = some q := hq
+  rw [hq']
+  exact emit_A _ _ _ _ _ h h1
+
+theorem scanString_A {n m : Nat} (l : L) (h : A n m l) : A n m (scanString l) := by
+  unfold scanString
+  exact scanStringN_A _ l h (by have := h.size; omega)
+
+/-- in-bounds state with nothing read ahead (`A` with its own `endOffset` as lower bound) -/
+def InBounds (l : L) : Prop := A l.input.size l.endOffset l
+
 attribute [local irreducible] emit emitType emitError next backupOne acceptWhile scanString acceptOne
   scanFixedPointRemainder scanDecimalOrFixedPointRemainder L.fail
 
